@@ -29,7 +29,7 @@
    deletion / stale-root rewrite: gen_flat) and hence the end-to-end join of (a)
    and (b), and that the callback emissions are exactly the canonical node set
    (gen_nodes_path); these are covered by the correspondence and the Go oracle. *)
-From GV Require Import Lib.Tactics Lib.Interleave Trie.Hex Trie.Node Trie.Ops Trie.Hash Trie.OpsProofs Trie.Canon Trie.Stack Trie.StackProofs Trie.ProofProofs Trie.Commit Trie.Generate Trie.GenerateProofs Trie.GenerateAssemble Trie.GenerateAssemble2 Trie.GenerateSched Trie.GenerateWalk Trie.GenerateWalk2 Trie.GenerateRoot Trie.GenerateRoot2 Trie.GenerateRoot3 Trie.GenerateFlat2 Trie.GenerateExample.
+From GV Require Import Lib.Tactics Lib.Interleave Trie.Hex Trie.Node Trie.Ops Trie.Hash Trie.OpsProofs Trie.Canon Trie.Stack Trie.StackProofs Trie.ProofProofs Trie.Commit Trie.Generate Trie.GenerateProofs Trie.GenerateAssemble Trie.GenerateAssemble2 Trie.GenerateSched Trie.GenerateWalk Trie.GenerateWalk2 Trie.GenerateRoot Trie.GenerateRoot2 Trie.GenerateRoot3 Trie.GenerateFlat2 Trie.GenerateDisjoint2 Trie.GenerateLocal2 Trie.GenerateExample.
 Local Open Scope N_scope.
 
 (* the callback-instrumented stack trie of the model computes exactly what the
@@ -175,6 +175,42 @@ Theorem C11_gen_flat : forall H, (forall x, length (H x) = 32%nat) ->
     g_stor (snd (generate H sc expected db)) = correct_stor db.
 Proof. exact gen_flat. Qed.
 Print Assumptions C11_gen_flat.
+
+(* schedules, discharged for the write lists generate_partition really produces:
+   writes of different partitions commute (path scheme: provided no account has
+   the all-zero hash; hash scheme: provided equal hashes carry equal blobs) ... *)
+Theorem C11_partition_writes_commute : forall H, (forall x, length (H x) = 32%nat) ->
+  forall sc db p q rp rq, wf_db db -> scheme_ok H sc db -> p <> q ->
+    generate_partition H sc p db = GOk rp -> generate_partition H sc q db = GOk rq ->
+    forall w1 w2, In w1 (r_ws rp) -> In w2 (r_ws rq) -> commute w1 w2.
+Proof. exact cross_writes_commute. Qed.
+Print Assumptions C11_partition_writes_commute.
+
+(* ... hence EVERY interleaving of the sixteen goroutines' writes (a history whose
+   projection on each partition is that partition's write list) leaves exactly
+   the database the model's sequential [generate] computes ... *)
+Theorem C11_any_schedule : forall H, (forall x, length (H x) = 32%nat) ->
+  forall sc db rs (h : hist), wf_db db -> scheme_ok H sc db ->
+    run_partitions H sc db partitions = GOk rs ->
+    Forall2 (fun p r => proj N.eqb p h = r_ws r) partitions rs ->
+    (forall e, In e h -> In (fst e) partitions) ->
+    apply_ws db (map snd h) = fold_left (fun d r => apply_ws d (r_ws r)) rs db.
+Proof. exact any_schedule. Qed.
+Print Assumptions C11_any_schedule.
+
+(* ... and a partition's own run does not depend on which writes of the other
+   partitions have already reached the database it reads: its result is a
+   function of its own slice of the flat state only *)
+Theorem C11_partition_reads_local : forall H sc p ws db, wf_db db -> Forall (other p) ws ->
+  generate_partition H sc p (apply_ws db ws) = generate_partition H sc p db.
+Proof. exact partition_reads_local. Qed.
+Print Assumptions C11_partition_reads_local.
+
+Theorem C11_other_partition_writes : forall H, (forall x, length (H x) = 32%nat) ->
+  forall sc p q db rq, wf_db db -> p <> q ->
+    generate_partition H sc q db = GOk rq -> Forall (other p) (r_ws rq).
+Proof. exact other_partition_writes. Qed.
+Print Assumptions C11_other_partition_writes.
 
 (* non-vacuity: a concrete state (single partition, extension subtree root, stale
    root, dangling slot) on which generate succeeds against the root computed by
